@@ -162,6 +162,9 @@ def prop(case, res):
             continue
         chk = g2[1] if t['alt'] != 'two' else g2[1][0]
         w2 = put(w, t['sl'], chk)
+        if t['applies'] and not t['applies'](w2):
+            res.hist['clause-c:mutation-changed-the-number-kind'] += 1
+            continue
         r = core.out(m.validate, w2, **vopts)
         res.hist['clause-c:' + (r[1] if r[0] == 'verr' else r[0])] += 1
         if r[0] == 'verr' and r[1] == 'InvalidChecksum':
